@@ -150,7 +150,7 @@ def addrLine (d : Val) (dflt : Val) (p : List String) : String :=
   let gets := (variants p).flatMap (fun k => [codeOf ref dflt (getRec d k none), codeOf ref dflt (getRec d k (some dflt))])
   let c := match d with
     | .dict es => if contains es (joinDots p) then "T" else "F"
-    | .leaf _ => "?"
+    | _ => "?"
   let pr := match ref with
     | some v => (ofVal v).compress
     | none => "-"
@@ -235,8 +235,11 @@ def handleUC (j : Json) : Json :=
     match ucInit args with
     | .error e => Json.mkObj [("init", Json.str (excName e))]
     | .ok uc =>
-      Json.mkObj [("init", "ok"),
-        ("calls", ofList (fun it => ofRes ofItem (ucCall uc it)) items)]
+      match uc.upd with
+      | .foreign => Json.mkObj [("init", "unmodelled")]      -- jinja2 syntax outside the modelled fragment
+      | _ =>
+        Json.mkObj [("init", "ok"),
+          ("calls", ofList (fun it => ofRes ofItem (ucCall uc it)) items)]
   | _, _ => err "bad uc args"
 
 def handle (j : Json) : Json :=
@@ -263,13 +266,10 @@ def handle (j : Json) : Json :=
         | none => Json.mkObj [("absent", true)]) ps)]
     | _, _ => err "bad path args"
   | some "str_to_dict" =>
-    match str? (getD j "s"), optVal j "value" with
-    | some s, v => if isBad v then err "str_to_dict: bad value" else ofRes ofVal (strToDict s v.join)
-    | _, _ => err "bad str_to_dict args"
+    let v := optVal j "value"
+    if isBad v then err "str_to_dict: bad value" else ofRes ofVal (strToDictE (keyOpt (getD j "s")) v.join)
   | some "str_to_list" =>
-    match str? (getD j "s") with
-    | some s => Json.mkObj [("r", ofList Json.str (strToList s))]
-    | none => err "bad str_to_list args"
+    ofRes (ofList Json.str) (strToListE (keyOpt (getD j "s")))
   | some "contains" =>
     match toVal (getD j "d"), strList? (getD j "ss") with
     | some (.dict es), some ss => Json.mkObj [("r", ofList (fun s => Json.bool (contains es s)) ss)]
